@@ -462,13 +462,41 @@ def _spec_math(name, a):
             return getattr(math, name.lower())(x)
         if name in ('ASIN', 'ACOS'):
             return NUM if abs(x) > 1 else getattr(math, name.lower())(x)
+        # the reciprocal and the remaining inverse functions, by their definitions
+        if name == 'COT':
+            return DIV if x == 0 else 1 / math.tan(x)
+        if name == 'SEC':
+            return 1 / math.cos(x)
+        if name == 'CSC':
+            return DIV if x == 0 else 1 / math.sin(x)
+        if name == 'COTH':
+            return DIV if x == 0 else 1 / math.tanh(x)
+        if name in ('SECH', 'CSCH'):
+            if name == 'CSCH' and x == 0:
+                return DIV
+            try:
+                return 1 / (math.cosh(x) if name == 'SECH' else math.sinh(x))
+            except OverflowError:
+                return math.copysign(0.0, x) if name == 'CSCH' else 0.0        # the reciprocal of an overflowing value
+        if name == 'ACOT':
+            return math.pi / 2 if x == 0 else (math.atan(1 / x) + math.pi) % math.pi
+        if name == 'ACOTH':
+            return NUM if abs(x) <= 1 else math.atanh(1 / x)
+        if name == 'ACOSH':
+            return NUM if x < 1 else math.acosh(x)
+        if name == 'ATANH':
+            return NUM if abs(x) >= 1 else math.atanh(x)
+        if name == 'DEGREES':
+            return math.degrees(x)
+        if name == 'RADIANS':
+            return math.radians(x)
     except OverflowError:
         return NUM
     raise KeyError(name)
 
 
 MATH1 = ['ABS', 'INT', 'SIGN', 'SQRT', 'EXP', 'LN', 'LOG10', 'LOG', 'EVEN', 'ODD', 'SIN', 'COS', 'TAN', 'ATAN', 'SINH', 'COSH', 'TANH',
-         'ASIN', 'ACOS', 'TRUNC']
+         'ASIN', 'ACOS', 'TRUNC', 'COT', 'SEC', 'CSC', 'COTH', 'SECH', 'CSCH', 'ACOT', 'ACOTH', 'ACOSH', 'ATANH', 'DEGREES', 'RADIANS', 'ASINH']
 MATH2 = ['POWER', 'MOD', 'ROUND', 'ROUNDUP', 'ROUNDDOWN', 'TRUNC', 'CEILING', 'FLOOR', 'LOG']
 NUMS = [0, 1, -1, 2, -2, 0.5, -0.5, 1.5, -1.5, 2.5, 3.2, -3.2, 1.15, 2.675, -2.675, 7, 10, 99.9, 1e-9, 1234.5678, -1234.5678, 0.1, 100]
 DIGITS = [0, 1, 2, 3, -1, -2]
@@ -557,6 +585,8 @@ def _text_cases(rng, n):
             for st in (1, 2, 3):
                 out.append(('text', 'FIND', [needle, t, st]))
                 out.append(('text', 'SEARCH', [needle, t, st]))
+            out.append(('text', 'FIND', [needle, t]))             # start_num omitted
+            out.append(('text', 'SEARCH', [needle, t]))
             out.append(('text', 'SUBSTITUTE', [t, needle, '+']))
             for k in (1, 2, 3, 4):
                 out.append(('text', 'SUBSTITUTE', [t, needle, '+', k]))
@@ -1020,12 +1050,35 @@ def _check_computed(case):
     return None if (not isinstance(got, bool) and got == want) else '%s = %r, Excel: %r' % (text, got, want)
 
 
+# ---- optional arguments left out: the documented defaults apply ----
+OPTIONAL = [('=IF(FALSE,5)', False), ('=IF(TRUE,5)', 5), ('=IF(2>1,"y")', 'y'), ('=IF(1>2,"y")', False), ('=LOG(100)', 2.0), ('=LEFT("abc")', 'a'),
+            ('=RIGHT("abc")', 'c'), ('=TRUNC(2.7)', 2.0), ('=TRUNC(-2.7)', -2.0), ('=FIND("b","abc")', 2), ('=SEARCH("B","abc")', 2),
+            ('=SUBSTITUTE("aXbX","X","-")', 'a-b-'), ('=ROUNDDOWN(2.7,0)', 2.0), ('=CEILING(2.1,1)', 3.0), ('=TEXTJOIN("-",TRUE,"a","","b")', 'a-b'),
+            ('=TEXTJOIN("-",FALSE,"a","","b")', 'a--b')]
+
+
+def _check_optional(case):
+    import numpy as np
+    import formulas
+    text, want = case
+    try:
+        f = formulas.Parser().ast(text)[1].compile()
+        got = np.asarray(f(), object).ravel()[0]
+    except Exception as ex:
+        return '%s raised %s: %s' % (text, type(ex).__name__, str(ex)[:80])
+    same = (isinstance(got, (bool, np.bool_)) == isinstance(want, bool)) and got == want
+    return None if same else '%s = %r, Excel: %r' % (text, got, want)
+
+
 def _classify_computed(case, detail):
     # a logical or a text produced by an operator / function inside the argument list is treated like a referenced one
     return 'KF-C12-4' if ('1=1' in case[0] or 'NOT(' in case[0] or '&' in case[0]) else None
 
 
 BOUNDED = [
+    Stage('B3:optional-arguments-left-out', 'C12', lambda tier, rng: list(OPTIONAL), _check_optional,
+          '%d calls of the listed functions with their optional arguments left out (IF without else, LOG without base, LEFT / RIGHT without a count, '
+          'TRUNC without digits, FIND / SEARCH without a start, TEXTJOIN ignoring / keeping empty text)' % len(OPTIONAL), parallel=False),
     Stage('B2:computed-arguments-count-as-typed', 'C12', lambda tier, rng: list(COMPUTED), _check_computed,
           '%d aggregations with an argument computed in place (a comparison, NOT(), arithmetic, a function call, a concatenation)' % len(COMPUTED),
           classify=_classify_computed, parallel=False),
